@@ -172,6 +172,7 @@ def tr_cases(draw, tier):
         "weight_power": draw(st.sampled_from([0.5, 1.0, 2.0])),
         "variant": variant,
         "a": draw(st.sampled_from([0.5, 1.0, 2.0, 3.0])), "b": draw(st.sampled_from([0.25, 1.0, 4.0])),
+        "pre_use": draw(st.booleans()),
     }
     if variant == "supervised":
         c["y"] = draw(st.lists(st.integers(0, 2), min_size=n, max_size=n))
@@ -194,6 +195,14 @@ def check_tr(case):
     approx = variant == "approx" or (variant == "supervised" and not case.get("exact_prior", True))
     est = L["T"](prior_strength=case["prior_strength"], approx_prior=approx, weight_power=case["weight_power"])
     y = np.array(case["y"]) if variant == "supervised" else None
+    if case.get("pre_use"):
+        # history: the estimator object was fitted on, and used with, another matrix of the same width before
+        r.label("previously-used-estimator")
+        Zp = np.asarray(case["Z"], dtype=np.float64)
+        if Zp.sum() > 0:
+            sp_, _o = call(est.fit, store(L, Zp, case["storage"]), y if (y is not None and len(y) == Zp.shape[0]) else None)
+            if sp_ == "ok":
+                call(est.transform, store(L, np.asarray(case["Y"], dtype=np.float64), case["storage"]))
     s, out = call(est.fit, store(L, D, case["storage"]), y)
     if s == "exc":
         r.fail(exc_kind(out), site + ".fit", exc_detail(out))
